@@ -72,12 +72,30 @@ impl Sub for Triple {
     }
 }
 
+thread_local! {
+    /// One secret-key slot per thread, overwritten in place by whichever key a case uses: different
+    /// keys then follow each other at the same address (anything keyed by object identity goes stale).
+    static KEY_SLOT: std::cell::RefCell<Option<api::Sk>> = const { std::cell::RefCell::new(None) };
+}
+
 fn sign_and_check(n: usize, key: &api::Key, msg: &[u8], mode: &Mode, st: &mut Stats) -> Result<(), Fail> {
     let _ = falcon_rust::verif_hooks::take_sign_counters();
-    let sig = match mode {
-        Mode::Natural => api::sign(msg, &key.sk),
-        Mode::Seeded { seed } => api::sign_with(msg, &key.sk, Box::new(crate::util::chacha(*seed))),
-        Mode::Biased { seed, p, biased_len } => api::sign_with(msg, &key.sk, Box::new(BiasedRng::new(*seed, *p, *biased_len as usize))),
+    // one case in four signs with a clone of the key placed in the thread's slot
+    let via_slot = crate::util::fnv(msg) % 4 == 0;
+    let do_sign = |sk: &api::Sk| match mode {
+        Mode::Natural => api::sign(msg, sk),
+        Mode::Seeded { seed } => api::sign_with(msg, sk, Box::new(crate::util::chacha(*seed))),
+        Mode::Biased { seed, p, biased_len } => api::sign_with(msg, sk, Box::new(BiasedRng::new(*seed, *p, *biased_len as usize))),
+    };
+    let sig = if via_slot {
+        st.count("signatures_with_a_clone_in_a_reused_slot");
+        KEY_SLOT.with(|slot| {
+            let mut slot = slot.borrow_mut();
+            *slot = Some(key.sk.clone());
+            do_sign(slot.as_ref().unwrap())
+        })
+    } else {
+        do_sign(&key.sk)
     };
     let (norm_retries, compress_retries) = falcon_rust::verif_hooks::take_sign_counters();
     let sb = sig.to_bytes();
@@ -259,7 +277,7 @@ impl Sub for Concurrent {
 }
 
 const META: Meta = Meta {
-    rule: "proptest (key, message, signer randomness): keys from a per-run list of seeds (32 x Falcon-512 + 16 x Falcon-1024 at quick); messages of length 0, 1-2, 3-64, 94-98, 230-234 (40+len straddles the SHAKE-256 rate), ~1 KiB and 100 KiB, random / all-zero / all-0xFF; signer randomness natural (thread_rng), seeded uniform, or zero-biased through the SignRng hook (each byte of a prefix is 0x00 with probability p/65536: a zero top byte forces BaseSampler to z0 >= 5, inflating the vector's norm so that it straddles floor(beta^2) and drives the norm-retry loop and, for Falcon-1024, the compression-retry loop; the stream turns uniform after the prefix so that signing terminates). Oracle: verify accepts, and the reference verifier accepts the serialised triple. Concurrency scenarios: 2-32 threads released by a barrier share one secret key, each signing its own message list (threads 0 and 1 the same list), natural and biased mixed; every scenario runs 8 rounds, each on a fresh secret-key object (decoded from bytes or generated again) that has never signed, half of them warmed up by one signature first. Non-trivial = a signature that took a norm or compression retry, an empty or >= 1000-byte message, or a scenario with >= 8 threads; distinct by hash.",
+    rule: "proptest (key, message, signer randomness): keys from a per-run list of seeds (32 x Falcon-512 + 16 x Falcon-1024 at quick); messages of length 0, 1-2, 3-64, 94-98, 230-234 (40+len straddles the SHAKE-256 rate), ~1 KiB and 100 KiB, random / all-zero / all-0xFF; signer randomness natural (thread_rng), seeded uniform, or zero-biased through the SignRng hook (each byte of a prefix is 0x00 with probability p/65536: a zero top byte forces BaseSampler to z0 >= 5, inflating the vector's norm so that it straddles floor(beta^2) and drives the norm-retry loop and, for Falcon-1024, the compression-retry loop; the stream turns uniform after the prefix so that signing terminates). One signature in four is made with a clone of the key written into a per-thread slot, so that different keys follow each other at one address. Oracle: verify accepts, and the reference verifier accepts the serialised triple. Concurrency scenarios: 2-32 threads released by a barrier share one secret key, each signing its own message list (threads 0 and 1 the same list), natural and biased mixed; every scenario runs 8 rounds, each on a fresh secret-key object (decoded from bytes or generated again) that has never signed, half of them warmed up by one signature first. Non-trivial = a signature that took a norm or compression retry, an empty or >= 1000-byte message, or a scenario with >= 8 threads; distinct by hash.",
     assumptions: &[
         "thread interleavings are stressed, not enumerated: the signer has no shared mutable state (no unsafe, no statics, thread-local generator, the secret key is only read)",
         "the SignRng hook only replaces the byte source; the body of sign runs unchanged on top of it",
